@@ -348,6 +348,26 @@ func genC01Atoms(g *G, id int) C01Case {
 			}
 		}
 	}
+	if id%7 == 5 {
+		// list and pattern constraints over texts a quoting function could mangle (a backslash before a letter that would be an
+		// escape, the character that escape stands for, quotes, a percent verb), on a graph that holds those very texts and their
+		// look-alikes: a listed value is matched as written
+		texts := []string{"C:\\temp\\new", "C:\temp\new", "a\\\"b", "a\"b", "100%d", "q\\u0041", "qA", "back\\\\slash", "back\\slash"}
+		p0 := PP(g.pick(propPool), false)
+		for k, kind := range []string{"in", "containsSome", "containsAll"} {
+			if k < len(c.Atoms) {
+				off := g.n(len(texts))
+				c.Atoms[k] = Atom{Kind: kind, Path: p0, Vals: []string{texts[off], texts[(off+3)%len(texts)]}}
+			}
+		}
+		for k := range c.Graph {
+			var vals []Val
+			for j := 0; j < 1+g.n(3); j++ {
+				vals = append(vals, VS(texts[g.n(len(texts))]))
+			}
+			setProp(&c.Graph[k], *p0.P, vals)
+		}
+	}
 	if bigInts {
 		// numeric constraints and comparisons over the big values: make sure some atoms are numeric
 		p0, p1 := PP(g.pick(propPool), false), PP(g.pick(propPool), false)
